@@ -533,7 +533,7 @@ pub mod value {
                     write!(f, "\"")
                 }
                 Vec(vs) => {
-                    if let Some(Nat8(_)) = vs.first() {
+                    if !vs.is_empty() && vs.iter().all(|v| matches!(v, Nat8(_))) {
                         write!(f, "blob \"")?;
                         for v in vs.iter() {
                             match v {
@@ -636,7 +636,9 @@ pub mod value {
             }
             Opt(v) => kwd("opt").append(pp_value(depth - 1, v)),
             Vec(vs) => {
-                if matches!(vs.first(), Some(Nat8(_))) || vs.len() > MAX_ELEMENTS_FOR_PRETTY_PRINT {
+                if (!vs.is_empty() && vs.iter().all(|v| matches!(v, Nat8(_))))
+                    || vs.len() > MAX_ELEMENTS_FOR_PRETTY_PRINT
+                {
                     RcDoc::as_string(format!("{v:?}"))
                 } else {
                     let values = vs.iter().map(|v| pp_value(depth - 1, v));
